@@ -20,7 +20,7 @@ use rustc_middle::mir::{
     AggregateKind, BinOp, Body, CastKind, Const, Operand, Place, PlaceElem, Rvalue,
     StatementKind, TerminatorKind,
 };
-use rustc_middle::ty::print::with_no_trimmed_paths;
+use rustc_middle::ty::print::{with_no_trimmed_paths, with_no_visible_paths};
 use rustc_middle::ty::{self, Instance, Ty, TyCtxt, TypingEnv};
 use rustc_span::Span;
 use std::fmt::Write as _;
@@ -54,6 +54,7 @@ fn opt_str(s: Option<String>) -> String {
 
 struct Cx<'tcx> {
     tcx: TyCtxt<'tcx>,
+    wanted: Vec<String>,
 }
 
 impl<'tcx> Cx<'tcx> {
@@ -62,7 +63,19 @@ impl<'tcx> Cx<'tcx> {
     }
 
     fn path(&self, did: DefId) -> String {
+        // items of the analysed library seen from the binary crate: print the real definition
+        // path (not the re-export the binary happens to see) so that ids agree between crates
+        if !did.is_local() && self.wanted.iter().any(|w| w == self.tcx.crate_name(did.krate).as_str()) {
+            return with_no_visible_paths!(with_no_trimmed_paths!(self.tcx.def_path_str(did)));
+        }
         with_no_trimmed_paths!(self.tcx.def_path_str(did))
+    }
+
+    fn path_args(&self, did: DefId, args: ty::GenericArgsRef<'tcx>) -> String {
+        if !did.is_local() && self.wanted.iter().any(|w| w == self.tcx.crate_name(did.krate).as_str()) {
+            return with_no_visible_paths!(with_no_trimmed_paths!(self.tcx.def_path_str_with_args(did, args)));
+        }
+        with_no_trimmed_paths!(self.tcx.def_path_str_with_args(did, args))
     }
 
     fn span_json(&self, span: Span) -> String {
@@ -407,11 +420,7 @@ impl<'tcx> Cx<'tcx> {
                     let mut s = String::from("{\"k\":\"call\"");
                     if let ty::FnDef(cd, ga) = fty.kind() {
                         let _ = write!(s, ",\"callee\":{}", esc(&self.path(*cd)));
-                        let _ = write!(
-                            s,
-                            ",\"callee_full\":{}",
-                            esc(&with_no_trimmed_paths!(tcx.def_path_str_with_args(*cd, ga)))
-                        );
+                        let _ = write!(s, ",\"callee_full\":{}", esc(&self.path_args(*cd, ga)));
                         let gas: Vec<String> = ga.iter().map(|a| esc(&with_no_trimmed_paths!(format!("{}", a)))).collect();
                         let _ = write!(s, ",\"gargs\":[{}]", gas.join(","));
                         let _ = write!(s, ",\"callee_local\":{}", cd.is_local());
@@ -433,11 +442,7 @@ impl<'tcx> Cx<'tcx> {
                                     _ => "other",
                                 };
                                 let _ = write!(s, ",\"resolved\":{}", esc(&self.path(rd)));
-                                let _ = write!(
-                                    s,
-                                    ",\"resolved_full\":{}",
-                                    esc(&with_no_trimmed_paths!(tcx.def_path_str_with_args(rd, inst.args)))
-                                );
+                                let _ = write!(s, ",\"resolved_full\":{}", esc(&self.path_args(rd, inst.args)));
                                 let _ = write!(s, ",\"resolved_kind\":\"{}\"", kind);
                                 let _ = write!(s, ",\"resolved_local\":{}", rd.is_local());
                             }
@@ -510,7 +515,7 @@ impl rustc_driver::Callbacks for Cb {
             Ok(d) => d,
             Err(_) => return Compilation::Continue,
         };
-        let cx = Cx { tcx };
+        let cx = Cx { tcx, wanted: wanted.split(',').map(|s| s.to_string()).collect() };
         let is_test = tcx.sess.opts.test;
         let ctypes: Vec<String> = tcx.crate_types().iter().map(|c| format!("{:?}", c)).collect();
         let ctype = if ctypes.iter().any(|c| c.contains("Executable")) { "bin" } else { "lib" };
